@@ -145,6 +145,8 @@ class AccessExec(Exec):
                 s.crash_fn = simproc.crash_process
                 s.crashes_left = 1
         w.start()
+        if cfg.get('terminate'):
+            w.terminate()       # the parent terminates the child; the explored schedules decide how far the child got
         obs = [self.apply(w, cfg['first'], mod)]
         for acc in ACCESSORS:
             if acc != cfg['first']:
@@ -269,6 +271,10 @@ class ProcessH(Harness):
             for k in ('obj', 'value_error', 'exit1'):
                 for a in ACCESSORS:
                     out.append(dict(what='process', kind=k, first=a, crash=sig, bound=1 if quick and a in ('join', 'wait') else (0 if quick else 1), cap=100000))
+        # terminate() by the parent right after start(), wherever the child happens to be
+        for k in ('obj', 'value_error', 'none'):
+            for a in ('join', 'result', 'wait', 'as_completed'):
+                out.append(dict(what='process', kind=k, first=a, terminate=True, bound=1 if quick else 2, cap=100000))
         return out
 
     def new(self, cfg):
